@@ -6,6 +6,7 @@
 -/
 import FlacModel.Model.StreamReader
 import FlacModel.Spec.Rfc
+import FlacModel.Model.Readers
 
 open Flac
 
@@ -106,6 +107,120 @@ def opEncframe (f : Fields) (impl : Fields) (implHead : String) (profile : Profi
       | .error e => failStr e
     s!"{m} @@ {verdict}"
 
+/-! ### reader histories -/
+
+def sinfoOf (si : Streaminfo) : SInfo := { rate := si.rate, channels := si.channels, bps := si.bps, maxBlock := si.maxBlock }
+
+/-- decode every frame of a file (release arithmetic); `none` if some frame does not decode -/
+def allFrames (si : SInfo) : Nat → List Nat → Nat → Option (List FrameInfo)
+  | 0, _, _ => some []
+  | fuel+1, bytes, off =>
+    if bytes.isEmpty then some [] else
+    match decodeFrame .release (some si) bytes with
+    | .error _ => none
+    | .ok d =>
+      match allFrames si fuel (bytes.drop d.used) (off + d.used) with
+      | none => none
+      | some fs => some ({ off := off, chans := d.channels } :: fs)
+
+def streamOfFile (bytes : List Nat) : Option Stream :=
+  match parseFileHead bytes with
+  | .error _ => none
+  | .ok h =>
+    match allFrames (sinfoOf h.si) (bytes.length + 1) (bytes.drop h.framesStart) 0 with
+    | none => none
+    | some frames => some { ch := h.si.channels, bps := h.si.bps, total := if h.si.total == 0 then none else some h.si.total,
+                            frames := frames, table := h.seektable }
+
+def errTag (e : Fail) : String :=
+  match e with | .err c => c | .eof => "Io(UnexpectedEof)" | .panic s => "PANIC " ++ s
+
+def hexOrDash (b : List Nat) : String := if b.isEmpty then "-" else bytesToHex b
+
+def opArg (o : String) (k : Nat) : Int := ((String.ofList (o.toList.drop k)).toInt?).getD 0
+
+partial def histByte (s : Stream) (be : Bool) (ops : List String) (r : Rd Nat) (avail : Nat) (acc : List String) : List String :=
+  match ops with
+  | [] => acc.reverse
+  | o :: rest =>
+    let enc := frameBytes s.bps be
+    if o.startsWith "r" then
+      match r.read s enc (opArg o 1).toNat with
+      | .error e => histByte s be rest r 0 (("r:ERR:" ++ errTag e) :: acc)
+      | .ok (d, r') => histByte s be rest r' 0 (("r:" ++ hexOrDash d) :: acc)
+    else if o == "f" then
+      match r.fill s enc with
+      | .error e => histByte s be rest r avail (("f:ERR:" ++ errTag e) :: acc)
+      | .ok (d, r') => histByte s be rest r' d.length (("f:" ++ hexOrDash d) :: acc)
+    else if o.startsWith "c" then
+      let k := min (opArg o 1).toNat avail
+      histByte s be rest (r.consume k) (avail - k) (s!"c:{k}" :: acc)
+    else if o.startsWith "s" then
+      let w := match o.toList.getD 1 'S' with | 'S' => Whence.start | 'C' => Whence.current | _ => Whence.fromEnd
+      match byteSeek s be r w (opArg o 2) with
+      | (.error e, r') => histByte s be rest r' 0 (("s:ERR:" ++ errTag e) :: acc)
+      | (.ok p, r') => histByte s be rest r' 0 (s!"s:ok:{p}" :: acc)
+    else histByte s be rest r avail acc
+
+partial def histSample (s : Stream) (ops : List String) (r : Rd Int) (avail : Nat) (acc : List String) : List String :=
+  match ops with
+  | [] => acc.reverse
+  | o :: rest =>
+    if o.startsWith "r" then
+      match r.read s frameSamples (opArg o 1).toNat with
+      | .error e => histSample s rest r 0 (("r:ERR:" ++ errTag e) :: acc)
+      | .ok (d, r') => histSample s rest r' 0 (("r:" ++ joinInts d) :: acc)
+    else if o == "f" then
+      match r.fill s frameSamples with
+      | .error e => histSample s rest r avail (("f:ERR:" ++ errTag e) :: acc)
+      | .ok (d, r') => histSample s rest r' d.length (("f:" ++ joinInts d) :: acc)
+    else if o.startsWith "c" then
+      let k := min (opArg o 1).toNat avail
+      histSample s rest (r.consume k) (avail - k) (s!"c:{k}" :: acc)
+    else if o.startsWith "ss" then
+      match sampleSeek s (opArg o 2).toNat with
+      | (.error e, r') => histSample s rest r' 0 (("s:ERR:" ++ errTag e) :: acc)
+      | (.ok (), r') => histSample s rest r' 0 ("s:ok" :: acc)
+    else if o == "x" then
+      match r.read s frameSamples 1 with
+      | .error e => histSample s rest r 0 (("x:ERR:" ++ errTag e) :: acc)
+      | .ok ([], r') => histSample s rest r' 0 ("x:-" :: acc)
+      | .ok (d, r') => histSample s rest r' 0 (("x:" ++ joinInts d) :: acc)
+    else histSample s rest r avail acc
+
+partial def histChan (s : Stream) (ops : List String) (r : ChanRd) (avail : Nat) (acc : List String) : List String :=
+  match ops with
+  | [] => acc.reverse
+  | o :: rest =>
+    if o == "f" then
+      match r.fill s with
+      | .error e => histChan s rest r avail (("f:ERR:" ++ errTag e) :: acc)
+      | .ok (d, r') => histChan s rest r' (d.headD []).length (("f:" ++ "|".intercalate (d.map joinInts)) :: acc)
+    else if o.startsWith "c" then
+      let k := min (opArg o 1).toNat avail
+      histChan s rest (r.consume k) (avail - k) (s!"c:{k}" :: acc)
+    else if o.startsWith "ss" then
+      match ChanRd.seek s (opArg o 2).toNat with
+      | (some e, r') => histChan s rest r' 0 (("s:ERR:" ++ errTag e) :: acc)
+      | (none, r') => histChan s rest r' 0 ("s:ok" :: acc)
+    else histChan s rest r avail acc
+
+def opHist (f : Fields) : String :=
+  match hexToBytes (f.get "bytes") with
+  | none => "model-error bad-hex"
+  | some bytes =>
+    match streamOfFile bytes with
+    | none => "model-skip"
+    | some s =>
+      let ops := ((f.get "ops").splitOn ";").filter (· ≠ "")
+      let d0 : Dec := { rest := s.frames, cur := 0 }
+      let tr := match f.get "reader" with
+        | "byte" => histByte s (f.get "endian" == "be") ops { dec := d0, buf := [] } 0 []
+        | "sample" => histSample s ops { dec := d0, buf := [] } 0 []
+        | "iter" => histSample s ops { dec := d0, buf := [] } 0 []
+        | _ => histChan s ops { dec := d0, frame := [], consumed := 0 } 0 []
+      s!"ok trace={if tr.isEmpty then "-" else ";".intercalate tr}"
+
 def runCase (line : String) : String :=
   let parts := line.splitOn "\t"
   let caseLine := parts.headD ""
@@ -116,6 +231,7 @@ def runCase (line : String) : String :=
   | "streamread" => opStreamread f profile ++ " @@ -"
   | "streamrw" => opStreamrw f impl implHead profile ++ " @@ -"
   | "encframe" => opEncframe f impl implHead profile
+  | "hist" => opHist f ++ " @@ -"
   | _ => "model-skip @@ -"
 
 partial def loop (h : IO.FS.Stream) (out : IO.FS.Stream) : IO Unit := do
